@@ -259,9 +259,33 @@ def r5_raw_padded_tensors(ctx):
                       "what is stored under the mask (fill value, padding) enters the result")
 
 
+def r6_algorithms_keep_weights(ctx):
+    """Sufficient statistics such as `y_x_model` are WeightedTensors whose weights are the observation mask; the algorithm layer only ever
+    combines them with WeightedTensor arithmetic (which propagates the weights: R1).  Unwrapping (`.value`) and re-wrapping without the
+    weight loses the mask for every later update rule."""
+    ctx.rule("C06.R6", "the fit / sampler layer never rebuilds a WeightedTensor without its weights", 1)
+    n = 0
+    for f in ctx.ix.iter_funcs():
+        if not (f.mod.startswith("leaspy.algo") or f.mod.startswith("leaspy.samplers")):
+            continue
+        for c in ast.walk(f.node):
+            if not isinstance(c, ast.Call):
+                continue
+            ctor = U(c.func) == "WeightedTensor" or (isinstance(c.func, ast.Call) and U(c.func.func) == "type")
+            if not ctor:
+                continue
+            w = (c.args[1] if len(c.args) > 1 else None) or kwarg(c, "weight")
+            unwraps = any(isinstance(x, ast.Attribute) and x.attr in ("value", "weighted_value") for a_ in c.args[:1] for x in ast.walk(a_))
+            n += 1
+            ctx.check(not (w is None and unwraps), "C06.R6", f, c, "weights kept", f"`{U(c)[:80]}` rebuilds a weighted value from `.value` without its weight: the observation mask of the statistic is lost "
+                      "and later updates sum over missing entries too")
+    ctx.ok("C06.R6", ("leaspy.algo", "<package>"), None, f"{n} construction(s) of weighted tensors in leaspy.algo / leaspy.samplers; none drops the weights", construct="algo layer")
+
+
 def rules(ctx):
     r1_weighted_tensor(ctx)
     r5_raw_padded_tensors(ctx)
+    r6_algorithms_keep_weights(ctx)
     r2_roots(ctx)
     r3_provenance(ctx)
     r4_counts(ctx)
